@@ -1,5 +1,7 @@
 import Norad.Lemmas.FontInfoTie
+import Norad.Lemmas.FontInfoDeserTie
 import Norad.Generated.FontInfoRules
+import Norad.Generated.FontInfoDeser
 /-!
 # C13 — font info is accepted exactly when it satisfies the specification's rules
 
@@ -364,6 +366,115 @@ theorem source_woff_checks_match_spec :
     sameSet (Generated.FontInfoRules.woffNonEmpty.map (·.1)) RuleTable.woffNonEmpty ∧
     sameSet Generated.FontInfoRules.woffNested ["items", "names", "values"] := by decide +kernel
 
+/-! ### source-level tie of the typed deserialisers (tools/extract_fontinfo_deser.py)
+
+`Generated.FontInfoDeser.*` is regenerated from `src/fontinfo.rs`, `src/guideline.rs`, `src/shared_types.rs` and
+`src/identifier.rs` on every run: per typed member of `FontInfo` what its `Deserialize` accepts, as written in the
+Rust (enum texts and discriminants, fixed lengths with element types, record members, the guideline `match` as a
+truth table, ranges).  `usedBy` resolves member -> type -> impl the way serde does and `acceptUsed` is the acceptor
+those tables denote.  `model_deser_tables_describe_deser` is stable: over the mirrored literals the acceptor IS the
+model's typed layer.  The `source_deser_*` theorems are about the generated file. -/
+
+/-- the regenerated tables, bundled -/
+def GenDeser : DeserTables :=
+  { aliases := Generated.FontInfoDeser.aliases, typedFields := Generated.FontInfoDeser.typedFields,
+    styleNamesRead := Generated.FontInfoDeser.styleNamesRead, reprEnums := Generated.FontInfoDeser.reprEnums,
+    fixedLen := Generated.FontInfoDeser.fixedLen, records := Generated.FontInfoDeser.records,
+    guidelineTable := Generated.FontInfoDeser.guidelineTable,
+    guidelineAngleRange := Generated.FontInfoDeser.guidelineAngleRange }
+
+/-- the acceptor the Rust source denotes NOW (a member whose type cannot be resolved accepts nothing) -/
+def sourceAccepts (r : RawInfo) : Bool :=
+  match usedBy GenDeser with
+  | some u => acceptUsed u r
+  | none => false
+
+/-- over the mirrored literals the interpreted acceptor is the typed layer of the model, for every value -/
+theorem model_deser_tables_describe_deser (r : RawInfo) : acceptUsed ModelUsed r = (deser r).isSome :=
+  acceptUsed_model r
+
+/-- what the source says the typed members accept is what the model's `deser` uses -/
+theorem source_deser_tables_match_model : usedBy GenDeser = some ModelUsed := by decide +kernel
+
+/-- the acceptor regenerated from the source accepts exactly the file-level values the model's typed layer accepts,
+    and a load succeeds with `i` exactly when that acceptor accepts, `i` is the typed value and the rules hold:
+    "accepted by load iff the rules hold" is a statement about the regenerated acceptors -/
+theorem source_deser_rules_match_model :
+    (∀ r, sourceAccepts r = (deser r).isSome) ∧
+    (∀ r i, loadInfo r = .loaded i ↔ (sourceAccepts r = true ∧ deser r = some i ∧ Rules i)) := by
+  have hs : ∀ r, sourceAccepts r = (deser r).isSome := by
+    intro r
+    unfold sourceAccepts
+    rw [source_deser_tables_match_model]
+    exact acceptUsed_model r
+  refine ⟨hs, ?_⟩
+  intro r i
+  rw [hs]
+  unfold loadInfo
+  cases hd : deser r with
+  | none => simp
+  | some j =>
+    have hv := validate_iff_rules j
+    have hp := validate_never_panics j
+    simp only [Option.isSome_some, true_and, Option.some.injEq]
+    cases hj : validate j with
+    | ok =>
+      rw [hj] at hv
+      dsimp only
+      constructor
+      · intro h; injection h with h; subst h; exact ⟨rfl, hv.1 rfl⟩
+      · rintro ⟨h, _⟩; subst h; rfl
+    | err k =>
+      rw [hj] at hv
+      dsimp only
+      constructor
+      · intro h; cases h
+      · rintro ⟨h, hr⟩; subst h; exact absurd (hv.2 hr) (by simp)
+    | panic => exact absurd hj hp
+
+open DeserRuleTable in
+/-- what the source says single values must look like is what the file format demands: enumeration texts and
+    ranges, fixed lengths (read at the indices 0..n-1), which members are bit lists / non-negative integers /
+    non-negative numbers, the record keys, identifier and colour syntax, the guideline shapes and the angle range;
+    what norad writes for an enumeration is what it reads -/
+theorem source_deser_rules_match_spec :
+    sameSet (Generated.FontInfoDeser.styleNamesRead.map (·.1)) DeserRuleTable.styleNames ∧
+    Generated.FontInfoDeser.styleNamesWritten = Generated.FontInfoDeser.styleNamesRead ∧
+    (Generated.FontInfoDeser.styleNamesRead.map (·.2)).Nodup ∧
+    sameSet (Generated.FontInfoDeser.woffDirsRead.map (·.1)) woffDirections ∧
+    Generated.FontInfoDeser.woffDirsWritten = Generated.FontInfoDeser.woffDirsRead ∧
+    sameSet (Generated.FontInfoDeser.woffDirHolders.map (·.1)) woffDirRecords ∧
+    (lookupS Generated.FontInfoDeser.reprEnums "Os2WidthClass").map (·.2) = some (rangeList widthClass) ∧
+    (lookupS Generated.FontInfoDeser.reprEnums "PostscriptWindowsCharacterSet").map (·.2) =
+      some (rangeList windowsCharacterSet) ∧
+    (lookupS Generated.FontInfoDeser.reprEnums "GaspBehavior").map (·.2) = some (rangeList gaspBehaviorBits) ∧
+    (lookupS Generated.FontInfoDeser.fixedLen "Os2FamilyClass").map (·.2) =
+      some (familyClassLength, List.range familyClassLength) ∧
+    (lookupS Generated.FontInfoDeser.fixedLen "Os2Panose").map (·.2) =
+      some (panoseLength, List.range panoseLength) ∧
+    (lookupS Generated.FontInfoDeser.fixedLen "Os2PanoseV2").map (·.2) =
+      some (panoseLength, List.range panoseLength) ∧
+    sameSet ((Generated.FontInfoDeser.typedFields.filter (fun p => (vecElemMax p.2).isSome)).map (·.1)) bitLists ∧
+    sameSet ((Generated.FontInfoDeser.typedFields.filter (fun p => (primMax p.2).isSome)).map (·.1))
+      nonNegativeIntegers ∧
+    sameSet ((Generated.FontInfoDeser.typedFields.filter (fun p => p.2 == "NonNegativeIntegerOrFloat")).map (·.1))
+      nonNegativeNumbers ∧
+    Generated.FontInfoDeser.nonNegativeTest ∈ nonNegativeTests ∧
+    (lookupS Generated.FontInfoDeser.records "NameRecord").map (fun p => (p.1, p.2.map (·.1))) =
+      some (true, ["encodingID", "languageID", "nameID", "platformID", "string"]) ∧
+    sameSet ["encodingID", "languageID", "nameID", "platformID", "string"] nameRecordKeys ∧
+    (lookupS Generated.FontInfoDeser.records "GaspRangeRecord").map (fun p => (p.1, p.2.map (·.1))) =
+      some (true, ["rangeGaspBehavior", "rangeMaxPPEM"]) ∧
+    sameSet ["rangeGaspBehavior", "rangeMaxPPEM"] gaspRecordKeys ∧
+    (Generated.FontInfoDeser.identMaxLen = identMaxLen ∧ Generated.FontInfoDeser.identByteRange = identRange) ∧
+    (Generated.FontInfoDeser.colorSeparator = colorSeparator ∧ Generated.FontInfoDeser.colorParsed = colorChannels ∧
+      Generated.FontInfoDeser.colorTested = colorChannels ∧ Generated.FontInfoDeser.colorRange = colorRange) ∧
+    (∀ x y a : Bool, guideOutcome Generated.FontInfoDeser.guidelineTable x y a = guidelineKind x y a) ∧
+    Generated.FontInfoDeser.guidelineAngleRange = angleRange ∧
+    (Generated.FontInfoDeser.rawGuidelineDenyUnknown = true ∧
+      sameSet (Generated.FontInfoDeser.rawGuidelineMembers.map (·.1)) guidelineKeys) := by
+  decide +kernel
+
 /-! ### non-vacuity and the regression witnesses -/
 
 def goodDate : List Char := "2020/06/15 12:30:30".toList
@@ -403,5 +514,28 @@ example : validate { created := some "2020/01/00 00:00:00".toList } = .err .date
 example : validate { guidelines := some [⟨none, .angle (.fin false 400 0 0)⟩] } = .err .angle := by decide
 example : saveInfo { guidelines := some [⟨none, .angle (.fin false 400 0 0)⟩] } = .refused .angle := by decide
 example : loadInfo { guidelines := some [⟨true, true, some (.fin false 400 0 0), none⟩] } = .parseErr := by decide
+
+-- the typed layer: witnesses for both sides of every member the tables speak about
+example : sourceAccepts (toRaw sample) = true := by decide +kernel
+example : sourceAccepts
+    { widthClass := some 9, winCharSet := some 20, styleMap := some "bold italic".toList,
+      panose := some [0, 1, 2, 3, 4, 5, 6, 7, 8, 4294967295] } = true := by decide +kernel
+example : sourceAccepts { widthClass := some 10 } = false := by decide +kernel
+example : sourceAccepts { widthClass := some 0 } = false := by decide +kernel
+example : sourceAccepts { winCharSet := some 21 } = false := by decide +kernel
+example : sourceAccepts { styleMap := some "Bold".toList } = false := by decide +kernel
+example : sourceAccepts { panose := some [0, 1, 2, 3, 4, 5, 6, 7, 8] } = false := by decide +kernel
+example : sourceAccepts { panose := some [0, 1, 2, 3, 4, 5, 6, 7, 8, -1] } = false := by decide +kernel
+example : sourceAccepts { familyClass := some [1, 2, 3] } = false := by decide +kernel
+example : sourceAccepts { familyClass := some [1, 256] } = false := by decide +kernel
+example : sourceAccepts { selection := some [256] } = false := by decide +kernel
+example : sourceAccepts { gasp := some [4294967296] } = false := by decide +kernel
+example : sourceAccepts { guidelines := some [⟨true, true, none, none⟩] } = false := by decide +kernel
+example : sourceAccepts { guidelines := some [⟨true, true, some (.fin false 361 0 0), none⟩] } = false := by
+  decide +kernel
+example : sourceAccepts { guidelines := some [⟨true, true, some (.fin false 360 0 0), none⟩] } = true := by
+  decide +kernel
+example : loadInfo (toRaw sample) = .loaded sample ∧ sourceAccepts (toRaw sample) = true ∧
+    deser (toRaw sample) = some sample := by decide +kernel
 
 end C13
